@@ -46,6 +46,8 @@ type ProcSpec struct {
 	WriteIdiom bool             `json:"writeidiom,omitempty"`
 	JoinSep    string           `json:"joinsep,omitempty"` // kind "joiner": {i:x|join:SEP}
 	JoinMod    string           `json:"joinmod,omitempty"` // kind "joiner": extra modifier (basename, %.txt)
+	FromStrLate bool            `json:"fromstr_late,omitempty"` // apply FromStr after the edges
+	Prepend    string           `json:"prepend,omitempty"` // Process.Prepend (a launcher put in front of the command)
 	JoinHdr    bool             `json:"joinhdr,omitempty"` // kind "joiner": a further, ordinary in-port hdr
 	JoinSep2   string           `json:"joinsep2,omitempty"` // kind "joiner": separator of a second joined in-port y
 	CmdSuffix  string           `json:"cmdsuffix,omitempty"`
@@ -262,20 +264,25 @@ func (w *WSpec) build(env *Env) *built {
 			var p *sp.Process
 			if ps.Kind == "cmd" {
 				p = wf.NewProc(ps.Name, cmdPattern(ps))
+				if ps.Prepend != "" {
+					p.Prepend = ps.Prepend
+				}
 			} else {
 				p = wf.NewProc(ps.Name, funcPattern(ps))
 				p.CustomExecute = env.funcBody(ps)
 			}
 			for _, o := range ps.Outs {
-				if o.Pattern != "" {
+				if o.Pattern != "" && !strings.HasPrefix(o.Pattern, "default:") {
 					p.SetOut(o.Name, o.Pattern)
 				}
 			}
 			if ps.Cores > 0 {
 				p.CoresPerTask = ps.Cores
 			}
-			for port, vals := range ps.FromStr {
-				p.InParam(port).FromStr(vals...)
+			if !ps.FromStrLate {
+				for port, vals := range ps.FromStr {
+					p.InParam(port).FromStr(vals...)
+				}
 			}
 			b.procs[ps.Name] = p
 		case "joiner":
@@ -312,6 +319,21 @@ func (w *WSpec) build(env *Env) *built {
 				panic(fmt.Sprintf("bad edge %+v", e))
 			}
 			ip.From(op)
+		}
+	}
+	for i := range w.Procs {
+		ps := &w.Procs[i]
+		if ps.FromStrLate {
+			// literal values connected AFTER the process connections of the same port (the feeder
+			// goroutine disconnects itself when done; a port it leaves empty is closed)
+			ports := []string{}
+			for port := range ps.FromStr {
+				ports = append(ports, port)
+			}
+			sort.Strings(ports)
+			for _, port := range ports {
+				b.procs[ps.Name].InParamPorts()[port].FromStr(ps.FromStr[port]...)
+			}
 		}
 	}
 	return b
@@ -423,6 +445,30 @@ type Ref struct {
 }
 
 func expandPattern(pat string, proc string, ins map[string]string, params map[string]string) string {
+	if strings.HasPrefix(pat, "default:") {
+		// no SetOut: the documented default name = base names of the inputs (in-port names sorted),
+		// process name, name_value of every parameter (names sorted), port name
+		pcs := []string{}
+		ports := []string{}
+		for port := range ins {
+			ports = append(ports, port)
+		}
+		sort.Strings(ports)
+		for _, port := range ports {
+			pcs = append(pcs, filepath.Base(ins[port]))
+		}
+		pcs = append(pcs, proc)
+		names := []string{}
+		for k := range params {
+			names = append(names, k)
+		}
+		sort.Strings(names)
+		for _, k := range names {
+			pcs = append(pcs, k+"_"+params[k])
+		}
+		pcs = append(pcs, strings.TrimPrefix(pat, "default:"))
+		return strings.Join(pcs, ".")
+	}
 	// the subset of SetOut syntax the scenarios use: {i:x} {p:x} with optional |basename
 	out := pat
 	for port, path := range ins {
